@@ -258,9 +258,28 @@ func (s *vf15Session) clientWrite() {
 	case r < 6:
 		n = rapid.SampledFrom([]int{0, 1, 2, 100, maxPayloadLength - 1, maxPayloadLength, maxPayloadLength + 1,
 			2*maxPayloadLength - 1, 2 * maxPayloadLength, 2*maxPayloadLength + 1, 4000}).Draw(s.rt, "wlen")
+	case r < 8:
+		// packets end 1428..1447 bytes into a segment: padding has to wrap
+		n = rapid.IntRange(0, 2).Draw(s.rt, "wFull")*maxPayloadLength + rapid.IntRange(maxPayloadLength-20, maxPayloadLength-1).Draw(s.rt, "wTail")
+		s.cls["c-write-tail-1428..1447"] = true
 	default:
 		n = rapid.IntRange(0, 5000).Draw(s.rt, "wlenAny")
 	}
+	restore := func() {}
+	if rapid.IntRange(0, 2).Draw(s.rt, "steer") == 0 {
+		// steer the sampled length: just behind the end of the packets (fewer than
+		// 21 bytes missing), or the extremes of the distribution
+		tail := ((n+maxPayloadLength-1)/maxPayloadLength*pktOverhead + n) % maxSegmentLength
+		v := rapid.SampledFrom([]int{minLenDistLength, maxLenDistLength - 1}).Draw(s.rt, "steerExtreme")
+		if d := rapid.IntRange(0, 21).Draw(s.rt, "steerGap"); d <= 20 && tail+d >= minLenDistLength && tail+d < maxLenDistLength {
+			v = tail + d
+			s.cls["c-write-steered-gap<21"] = true
+		}
+		restore = s.l.steer(v, s.k+uint64(len(s.log)))
+		s.cls["c-write-steered"] = true
+		s.log = append(s.log, fmt.Sprintf("steer(%d)", v))
+	}
+	defer restore()
 	var chunks []int
 	switch rapid.IntRange(0, 3).Draw(s.rt, "chunking") {
 	case 0:
